@@ -837,12 +837,18 @@ func (it *Interp) step(i int, op *Op) {
 			}
 			hs := &otypes.Holders{}
 			variant := 0
-			if op.N > 0 && vi%2 == 1 {
+			if op.N%2 == 1 && vi%2 == 1 {
 				variant = 1
 			}
 			for u := 0; u < 3; u++ {
 				val := sdk.NewIntFromBigInt(new(big.Int).Mul(big.NewInt(int64((u+1)*(op.R+1+variant))), pow10(18)))
 				hs.List = append(hs.List, &otypes.Holder{Address: sim.ExtUser(u).Hex()[2:], Value: val})
+			}
+			if op.N >= 2 && vi%2 == 1 {
+				// the same holders listed in another order
+				for a, b := 0, len(hs.List)-1; a < b; a, b = a+1, b-1 {
+					hs.List[a], hs.List[b] = hs.List[b], hs.List[a]
+				}
 			}
 			res := it.H.Deliver(&otypes.MsgHoldersClaim{Epoch: epoch, Holders: hs, Orchestrator: sdk.AccAddress(sim.ValAddr(vi)).String()})
 			if res.Err == nil {
